@@ -90,6 +90,19 @@ func genUnmarshal(tier string, seed uint64) {
 			rec(nil)
 		}
 	}
+	// 1b. a repeated map key must be refused whatever its length (short, around one machine word of bits, long)
+	for _, n := range []int{1, 7, 31, 32, 33, 63, 64, 65, 100, 300, 5000} {
+		key := "s" + strings.Repeat("6b", n)
+		other := "s" + strings.Repeat("6a", n)
+		for _, mt := range []interface{}{map[string]int{}, map[string]interface{}{}, StrMap{}, map[string]*int16{}} {
+			t := reflect.TypeOf(mt)
+			for _, aid := range []int{1, 3} {
+				emit("unmarshal %d %d {-1,%s,i1,%s,i2,}", aid, tid(t), key, key)
+				emit("unmarshal %d %d {3,%s,i1,%s,i2,%s,i3,}", aid, tid(t), key, other, key)
+				emit("unmarshal %d %d {2,%s,i1,%s,i2,}", aid, tid(t), key, other)
+			}
+		}
+	}
 	// 2. renderings the marshaller produces for random values of every target, mutated at token level:
 	//    an entry repeated n times, an unknown key inserted, a token deleted / replaced, a declared length changed,
 	//    the stream truncated; and the unmutated rendering itself
@@ -298,6 +311,12 @@ func genRemarshal(tier string, seed uint64) {
 		}
 	}
 	taggedNeighbours(r, func(aid int, t reflect.Type, vd string) { emit("remarshal cbor %d %d %s", aid, tid(t), vd) })
+	for _, d := range []int{17, 33, 65, 100} {
+		for _, dv := range deepValues(d) {
+			emit("remarshal cbor 1 %d %s", tid(dv.t), dv.vd)
+			emit("remarshal json 3 %d %s", tid(dv.t), dv.vd)
+		}
+	}
 }
 
 // several tagged struct values side by side in one untyped container (one value machine serves them all): sparse after
@@ -341,6 +360,25 @@ func genClone(tier string, seed uint64) {
 				}
 			}
 		}
+	}
+	for _, d := range []int{17, 33, 65, 100} {
+		for _, dv := range deepValues(d) {
+			emit("clone 1 %d %s", tid(dv.t), dv.vd)
+			emit("clone 2 %d %s", tid(dv.t), dv.vd)
+		}
+	}
+	// byte strings and strings around and past 64 KiB (copy-avoidance thresholds): top level, struct field, untyped slot,
+	// behind a transform
+	bt := tid(reflect.TypeOf([]byte{}))
+	for _, n := range []int{4096, 65535, 65536, 65537, 70000, 200000} {
+		x := "x" + hexStr(n, 7)
+		emit("clone 1 %d %s", bt, x)
+		emit("clonev 1 %d %s", bt, x)
+		emit("clone 1 %d S(%s,X01020304,xn,X0506)", tid(reflect.TypeOf(PaySum{})), x)
+		emit("clone 1 %d [I%d:%s,I%d:i1]", tid(reflect.TypeOf([]interface{}{})), bt, x, tid(reflect.TypeOf(int(0))))
+		emit("clone 2 %d S(%s)", tid(reflect.TypeOf(TrOpt{})), x)
+		emit("clone 1 %d A[%s,x01]", tid(reflect.TypeOf([2][]byte{})), x)
+		emit("clone 1 %d s%s", tid(reflect.TypeOf("")), hexStr(n, 0x61))
 	}
 }
 
@@ -391,6 +429,7 @@ func genPump(tier string, seed uint64) {
 			}
 		}
 	}
+	emitShapes("pump", tier)
 	// line / indent options whose separator (comma + line + depth * indent) crosses the sizes of the encoder's fixed
 	// scratch areas: nested arrays and maps with at least two entries at every depth, both source formats
 	maxD := 40
@@ -561,12 +600,25 @@ func genNumBytes(tier string, seed uint64) {
 		}
 		if true {
 			for _, s := range []string{"18446744073709551616", "-9223372036854775809", "-18446744073709551616", "1e19", "1e3", "-1e3", "12e-1", "0.5",
-				"-0", "-0.0", "1E2", "9007199254740993", "9223372036854775807.5", "1e400", "123456789012345678901234567890"} {
+				"-0", "-0.0", "1E2", "9007199254740993", "9223372036854775807.5", "1e400", "123456789012345678901234567890",
+				strings.Repeat("1", 63), strings.Repeat("1", 64), strings.Repeat("1", 65), "-" + strings.Repeat("9", 63), "-" + strings.Repeat("9", 64), strings.Repeat("7", 100),
+				strings.Repeat("3", 308), strings.Repeat("3", 309), strings.Repeat("3", 400), "1" + strings.Repeat("0", 64), "1" + strings.Repeat("0", 70) + "E-60", "123456789012345678901234567890E-10",
+				"18446744073709551616E+2", "18446744073709551616e+2", "0." + strings.Repeat("0", 70) + "1", strings.Repeat("0", 0) + "1e0"} {
 				emit("unmbytes json 1 %d %x", tid(t), s)
 			}
 		}
 	}
 	genNumTagged()
+	// several entries of a map whose values are POINTERS to narrow integers (one value slot serves all entries)
+	for _, pt := range []interface{}{map[string]*int16{}, map[string]*uint8{}} {
+		t := reflect.TypeOf(pt)
+		for _, doc := range []string{`{"a":1,"b":-2,"c":30000}`, `{"a":1,"b":2}`, `{"a":255,"b":null,"c":7}`, `{"a":300,"b":1}`, `{"a":1,"b":70000}`, `{"x":0,"y":1,"z":2,"w":3}`} {
+			emit("unmbytes json 1 %d %x", tid(t), doc)
+		}
+		for _, doc := range []string{"a3616101616221616319 7530", "a26161016162 02", "a3616118ff6162f6616307", "a261611901 2c616201", "a2616101 61621a00011170"} {
+			emit("unmbytes cbor 1 %d %s", tid(t), strings.ReplaceAll(doc, " ", ""))
+		}
+	}
 	// integers side by side (one token slot is reused for all of them): every ordered pair / some triples of boundary
 	// values of both signs, into untyped and typed element slots
 	var items []string
@@ -670,10 +722,14 @@ func genOrder(tier string, seed uint64) {
 					emit("marshal %d %d 0 M{%s}", tg.aid, tid(tg.t), strings.Join(parts, ","))
 				}
 			}
-			if len(ks) <= 4 || tier == "thorough" {
+			nrand := 12
+			if tier == "thorough" {
+				nrand = 400
+			}
+			if len(ks) <= 4 || (tier == "thorough" && len(ks) <= 6) {
 				permutations(append([]string{}, ks...), emitPerm)
 			} else {
-				for i := 0; i < 12; i++ {
+				for i := 0; i < nrand; i++ {
 					p := append([]string{}, ks...)
 					for j := len(p) - 1; j > 0; j-- {
 						k := r.intn(j + 1)
@@ -681,6 +737,19 @@ func genOrder(tier string, seed uint64) {
 					}
 					emitPerm(p)
 				}
+			}
+		}
+	}
+	// keys longer than 255 and than 65535 bytes next to short ones (lengths that do not fit one or two bytes)
+	for _, tg := range targets {
+		if tg.t != reflect.TypeOf(map[string]int{}) && tg.t != reflect.TypeOf(StrMap{}) {
+			continue
+		}
+		for _, n := range []int{255, 256, 257, 65535, 65536, 65537, 70000} {
+			long := strings.Repeat("61", n)
+			for rep := 0; rep < 2; rep++ {
+				emit("marshal %d %d 0 M{s62=i1,s%s=i2,s6162=i3,s=i4,s%s62=i5}", tg.aid, tid(tg.t), long, long[:len(long)-2])
+				emit("marshal %d %d 0 M{s%s=i2,s7a=i1}", tg.aid, tid(tg.t), long)
 			}
 		}
 	}
@@ -934,10 +1003,103 @@ func genHist(tier string, seed uint64) {
 				emit("hist cbor U|2|%d|%s;U|2|%d|%s", innerT, bad, innerT, goodTagged)
 			}
 		}
+		// the same refusal twice in a row (an unregistered tag, an unknown union member, an unknown field), then an item
+		// that must be accepted
+		for _, bad := range []string{"d86301", "d863a0", "d9270f6161", "c501"} {
+			emit("hist cbor U|2|%d|%s;U|2|%d|%s;U|2|%d|%s;U|2|%d|%s", ifaceT, bad, ifaceT, bad, ifaceT, goodTagged, ifaceT, bad)
+			emit("hist cbor U|2|%d|82%s%s;U|2|%d|81%s;U|2|%d|%s", ifaceT, goodTagged, bad, ifaceT, bad, ifaceT, "82"+goodTagged+goodTagged)
+		}
 		for _, c := range [][2]string{{"true", "tru"}, {"true", "t"}, {"false", "fals"}, {"false", "f"}, {"null", "nul"}, {"null", "n"},
 			{"[1,true]", "tru"}, {"{\"a\":false}", "f"}, {"[null]", "nu"}, {"[true,false]", "fa"}, {"\"abc\"", "\"ab"}, {"123", "-"}, {"1.5e3", "1.5e"}} {
 			emit("hist json U|1|%d|%x0a;U|1|%d|%x", ifaceT, c[0], ifaceT, c[1])
 			emit("hist json U|1|%d|%x0a;U|1|%d|%x;U|1|%d|%x0a", ifaceT, c[0], ifaceT, c[1], ifaceT, c[0])
+		}
+	}
+	// (a) top-level scalars abandoned at every Write position, then the instance reused; (b) JSON values with something
+	// JSON cannot carry (byte strings) in a non-first position, the writer failing at every position before it, then reuse;
+	// (c) items whose mismatch with the target lies INSIDE a container (the sink walks away while the decoder is in the
+	// middle of it), then a well-formed item; (d) an item nested deeper than any stack's initial capacity, then a small
+	// one; (e) a call with a target Bind rejects while the next item is waiting
+	{
+		intT, strT, bytesT := reflect.TypeOf(int(0)), reflect.TypeOf(""), reflect.TypeOf([]byte{})
+		ifsl := reflect.TypeOf([]interface{}{})
+		for _, f := range []string{"cbor", "json"} {
+			for _, sc := range []struct {
+				t  reflect.Type
+				vd string
+			}{{intT, "i5"}, {intT, "i-70000"}, {strT, "s6162"}, {bytesT, "x010203"}, {reflect.TypeOf(float64(0)), "f3ff8000000000000"}, {reflect.TypeOf(false), "b1"}} {
+				if f == "json" && sc.t == bytesT {
+					continue
+				}
+				for k := 0; k < histWriteCalls(f, 1, sc.t, sc.vd); k++ {
+					emit("hist %s M|1|%d|%s|%d;M|1|%d|[i1,i2];M|1|%d|%s", f, tid(sc.t), sc.vd, k, tid(reflect.TypeOf([]int{})), tid(sc.t), sc.vd)
+				}
+			}
+		}
+		for _, vd := range []string{fmt.Sprintf("[I%d:i1,I%d:x0102]", tid(intT), tid(bytesT)), fmt.Sprintf("[I%d:s61,I%d:i2,I%d:f7ff8000000000001]", tid(strT), tid(intT), tid(reflect.TypeOf(float64(0)))),
+			fmt.Sprintf("[I%d:[I%d:i1,I%d:x]]", tid(ifsl), tid(intT), tid(bytesT))} {
+			// (the value cannot be marshalled to JSON at all: the run fails with or without the writer fault)
+			n := 12
+			for k := 0; k < n; k++ {
+				emit("hist json M|1|%d|%s|%d;M|1|%d|%s;M|1|%d|[I%d:i7]", tid(ifsl), vd, k, tid(ifsl), vd, tid(ifsl), tid(intT))
+			}
+			emit("hist json M|1|%d|%s;M|1|%d|[I%d:i7];M|1|%d|%s;M|1|%d|[I%d:i8]", tid(ifsl), vd, tid(ifsl), tid(intT), tid(ifsl), vd, tid(ifsl), tid(intT))
+		}
+		slInt, mpInt, innerT := tid(reflect.TypeOf([]int{})), tid(reflect.TypeOf(map[string]int{})), tid(reflect.TypeOf(Inner{}))
+		for _, c := range [][3]string{
+			{"cbor", fmt.Sprint(slInt), "82016178"}, {"cbor", fmt.Sprint(slInt), "9f016178ff"}, {"cbor", fmt.Sprint(slInt), "83010203"[:6] + "8101"},
+			{"cbor", fmt.Sprint(mpInt), "a2616101616261 78"}, {"cbor", fmt.Sprint(innerT), "a2617801617a02"}, {"cbor", fmt.Sprint(innerT), "a3617801617801617902"},
+			{"cbor", fmt.Sprint(slInt), "8201820203"}, {"cbor", fmt.Sprint(mpInt), "a26161016161 02"},
+			{"json", fmt.Sprint(slInt), hex.EncodeToString([]byte(`[1,"x"]`))}, {"json", fmt.Sprint(mpInt), hex.EncodeToString([]byte(`{"a":1,"b":"x"}`))},
+			{"json", fmt.Sprint(innerT), hex.EncodeToString([]byte(`{"x":1,"z":2}`))}, {"json", fmt.Sprint(slInt), hex.EncodeToString([]byte(`[1,[2]]`))}} {
+			bad := strings.ReplaceAll(c[2], " ", "")
+			good, goodSl := "05", "820102"
+			if c[0] == "json" {
+				bad += "0a"
+				good, goodSl = hex.EncodeToString([]byte("5\n")), hex.EncodeToString([]byte("[1,2]\n"))
+			}
+			emit("hist %s U|1|%s|%s;U|1|%d|%s;U|1|%d|%s", c[0], c[1], bad, tid(intT), good, slInt, goodSl)
+			emit("hist %s U|1|%s|%s;U|1|%d|%s;U|1|%s|%s", c[0], c[1], bad, slInt, goodSl, c[1], bad)
+		}
+		for _, d := range []int{40, 81, 90, 100, 130} {
+			for _, dv := range deepValues(d) {
+				for _, f := range []string{"cbor", "json"} {
+					res := opRoundtrip([]string{f, "1", fmt.Sprint(tid(dv.t)), "nil", "-", dv.vd})
+					hx := strings.Split(strings.TrimPrefix(strings.Split(res, " ")[0], "I="), "/")[0]
+					if hx == "-" || hx == "" {
+						continue
+					}
+					good := "05"
+					if f == "json" {
+						hx += "0a"
+						good = hex.EncodeToString([]byte("5\n"))
+					}
+					emit("hist %s U|1|%d|%s;U|1|%d|%s;U|1|%d|%s;U|1|%d|%s", f, tid(dv.t), hx, tid(intT), good, tid(dv.t), hx, tid(intT), good)
+					emit("hist %s M|1|%d|%s;M|1|%d|i5;M|1|%d|%s", f, tid(dv.t), dv.vd, tid(intT), tid(dv.t), dv.vd)
+				}
+			}
+		}
+		for _, c := range [][3]string{{"cbor", fmt.Sprint(tid(intT)), "05"}, {"cbor", fmt.Sprint(slInt), "820102"}, {"cbor", fmt.Sprint(innerT), "a2617801617961 61"[:14] + "6161"},
+			{"cbor", fmt.Sprint(tid(strT)), "6161"}, {"json", fmt.Sprint(tid(intT)), hex.EncodeToString([]byte("5\n"))}, {"json", fmt.Sprint(slInt), hex.EncodeToString([]byte("[1,2]\n"))}} {
+			emit("hist %s B|1|%s|%s;U|1|%s|%s", c[0], c[1], c[2], c[1], c[2])
+			emit("hist %s U|1|%s|%s;B|1|%s|%s;B|1|%s|%s", c[0], c[1], c[2], c[1], c[2], c[1], c[2])
+		}
+	}
+	// the atlas-less helpers, call after call, failing calls (something unrepresentable nested inside a container) in between
+	{
+		ifsl := tid(reflect.TypeOf([]interface{}{}))
+		ifmp := tid(reflect.TypeOf(map[string]interface{}{}))
+		intT := tid(reflect.TypeOf(int(0)))
+		strT := tid(reflect.TypeOf(""))
+		naT := tid(reflect.TypeOf(NoAtlas{}))
+		good := []string{fmt.Sprintf("H|0|%d|[I%d:i1,I%d:s61]", ifsl, intT, strT), fmt.Sprintf("H|0|%d|i7", intT), fmt.Sprintf("H|0|%d|M{s6b=I%d:i2}", ifmp, intT), fmt.Sprintf("H|0|%d|s6869", strT)}
+		bad := []string{fmt.Sprintf("H|0|%d|[I%d:i1,I%d:i2,I%d:S(i1)]", ifsl, intT, intT, naT), fmt.Sprintf("H|0|%d|M{s61=I%d:i1,s62=I%d:S(i1)}", ifmp, intT, naT), fmt.Sprintf("H|0|%d|S(i1)", naT)}
+		for _, f := range []string{"cbor", "json"} {
+			for i, b := range bad {
+				for j := range good {
+					emit("hist %s %s;%s;%s;%s;%s", f, good[j], b, good[(j+1)%len(good)], bad[(i+1)%len(bad)], good[j])
+				}
+			}
 		}
 	}
 	// byte strings and strings in the indefinite-length (chunked) spelling, item after item on one Unmarshaller: what an
